@@ -23,7 +23,7 @@ def mknum(rng, kind, positive=False):
 def gen_cases(ctx):
     rng = ctx.rng
     th = ctx.tier == "thorough"
-    reps = 12 if th else 3
+    reps = 12 if th else 3 * ctx.scale
     cases = []
     kinds = ["f", "d", "d2"]
     for ka in kinds:
